@@ -210,12 +210,13 @@ def summarize(F, inst, max_paths=400, ts=False):
                                 last = body
         return last
 
-    def walk(bi, seen, flags, lits, trail, started, opaque=0, pvals=None):
+    def walk(bi, seen, flags, lits, trail, started, opaque=0, pvals=None, bdefs=None):
         if len(paths) >= max_paths:
             return
         b = blocks[bi]
         flags = dict(flags)
         pvals = dict(pvals or {})
+        bdefs = dict(bdefs or {})
         T.pvals = pvals
         for si, s in enumerate(b["stmts"]):
             if s["k"] == "assign" and not s["place"]["p"]:
@@ -225,6 +226,10 @@ def summarize(F, inst, max_paths=400, ts=False):
                     flags[l_] = int(rv["op"]["bits"], 16)
                 else:
                     flags.pop(l_, None)
+                if l_ in multi and F.types[inst["locals"][l_]["ty"]]["k"] == "bool" and not (rv["k"] == "use" and rv["op"].get("k") == "const"):
+                    bdefs[l_] = (bi, si, "assign", s)          # a boolean computed on this path (`a && b` lowered to a temporary)
+                elif l_ in bdefs:
+                    bdefs.pop(l_)
                 if l_ in multi:
                     T.forced = {l_: (bi, si, "assign", s)}
                     try:
@@ -233,6 +238,9 @@ def summarize(F, inst, max_paths=400, ts=False):
                         T.forced = None
                     pvals[l_] = val
         t = b["term"]
+        if t["k"] == "call" and not t["dest"]["p"] and t["dest"]["l"] in multi and F.types[inst["locals"][t["dest"]["l"]]["ty"]]["k"] == "bool":
+            bdefs[t["dest"]["l"]] = (bi, "term", "call", t)
+            flags.pop(t["dest"]["l"], None)
         if t["k"] == "call" and not t["dest"]["p"] and t["dest"]["l"] in multi:
             l_ = t["dest"]["l"]
             T.forced = {l_: (bi, "term", "call", t)}
@@ -251,7 +259,7 @@ def summarize(F, inst, max_paths=400, ts=False):
             if dl is not None and dl in flags:
                 outs = [(s_, None) for s_ in successors(t) if bool_branch_taken(t, s_) == bool(flags[dl])]
             else:
-                d = T.body.single_def(dl) if dl is not None else None
+                d = (bdefs.get(dl) or T.body.single_def(dl)) if dl is not None else None
                 # a boolean kept in a named local first (`let ok = a < b; if ok || ..`): follow plain copies and `!`
                 negate = False
                 for _ in range(6):
@@ -259,7 +267,7 @@ def summarize(F, inst, max_paths=400, ts=False):
                         rv0 = d[3]["rv"]
                         if rv0["k"] == "use" and rv0["op"].get("k") in ("copy", "move") and not rv0["op"]["p"]:
                             dl = rv0["op"]["l"]
-                            d = T.body.single_def(dl)
+                            d = bdefs.get(dl) or T.body.single_def(dl)
                             continue
                         if rv0["k"] == "unop" and rv0["op"] == "Not" and rv0["a"].get("k") in ("copy", "move") and not rv0["a"]["p"]:
                             negate = not negate
@@ -277,7 +285,7 @@ def summarize(F, inst, max_paths=400, ts=False):
                     lit = ("cmp", atom_id("flag", T.of_operand(d[3]["rv"]["op"]), ("const", 1)))
                 if d is not None and d[2] == "call":
                     fn = d[3]["func"].get("fn", {})
-                    m = fn.get("method")
+                    m = fn.get("method") or (fn.get("res_path") or fn.get("path") or "").rsplit("::", 1)[-1]
                     trn = fn.get("trait") or ""
                     if m in CMP and trn.startswith("core::cmp::Partial") and len(d[3]["args"]) == 2:
                         kind, swap = CMP[m]
@@ -303,7 +311,27 @@ def summarize(F, inst, max_paths=400, ts=False):
                     elif rv["k"] == "discriminant":
                         pl = rv["place"]
                         lit = ("variant", T.of_local(pl["l"], pl["p"]))
-                for s_ in successors(t):
+                ordering = lit is not None and lit[0] == "variant" and isinstance(lit[1], tuple) and lit[1][:2] == ("call", "cmp") and len(lit[1]) == 4
+                if ordering:
+                    # `match a.cmp(&b)`: Less / Equal / Greater as two comparison atoms
+                    a_lt_b = atom_id("lt", lit[1][2], lit[1][3])
+                    b_lt_a = atom_id("lt", lit[1][3], lit[1][2])
+                    listed = {}
+                    for v, tg in t["targets"]:
+                        iv = int(v, 16) if isinstance(v, str) else v
+                        if iv >= 128:
+                            iv -= 256
+                        listed[iv] = tg
+                    names_ = {-1: [(a_lt_b, True)], 0: [(a_lt_b, False), (b_lt_a, False)], 1: [(a_lt_b, False), (b_lt_a, True)]}
+                    for iv, tg in listed.items():
+                        if iv in names_:
+                            outs.append((tg, list(names_[iv])))
+                    rest = [iv for iv in names_ if iv not in listed]
+                    if len(rest) == 1:
+                        outs.append((t["otherwise"], list(names_[rest[0]])))
+                    elif t["otherwise"] not in fi.diverging:
+                        outs.append((t["otherwise"], None))
+                for s_ in ([] if ordering else successors(t)):
                     if lit is None:
                         outs.append((s_, None))
                     elif lit[0] == "variant":
@@ -319,12 +347,14 @@ def summarize(F, inst, max_paths=400, ts=False):
         else:
             outs = [(s_, None) for s_ in successors(t)]
         live = [(nxt, lit) for nxt, lit in outs if nxt not in fi.diverging]
-        if len(live) == 1 and len(outs) > 1 and live[0][1] is not None and live[0][1][0] != "variant":
+        if len(live) == 1 and len(outs) > 1 and live[0][1] is not None and not isinstance(live[0][1], list) and live[0][1][0] != "variant":
             live = [(live[0][0], None)]          # an assertion (`debug_assert!`, overflow check): the other edge only panics
         # a branch that could not be turned into a literal (and is not a panic edge): the paths through it are not fully described
         op2 = opaque + (1 if len(live) > 1 and all(lit is None for _, lit in live) else 0)
+        if op2 > opaque:
+            notes.append("opaque branch at block %d (%s)" % (bi, (t.get("span") or {}).get("line")))
         for nxt, lit in live:
-            l2 = lits + [lit] if lit is not None else lits
+            l2 = lits + (lit if isinstance(lit, list) else [lit]) if lit is not None else lits
             if ts and nxt in headers:
                 upd = {lname[l_]: v_ for l_, v_ in pvals.items() if l_ in multi and v_ != ("var", lname[l_])}
                 paths.append({"lits": l2, "outcome": ("goto", nxt, upd), "blocks": trail, "opaque": op2})
@@ -333,7 +363,7 @@ def summarize(F, inst, max_paths=400, ts=False):
                 if nxt in headers:
                     paths.append({"lits": l2, "outcome": ("continue",), "blocks": trail, "opaque": op2})
                 continue
-            walk(nxt, seen | {nxt}, flags, l2, trail, True, op2, pvals)
+            walk(nxt, seen | {nxt}, flags, l2, trail, True, op2, pvals, bdefs)
             T.pvals = pvals
 
     import sys
